@@ -7,7 +7,7 @@
 #include "vh.h"
 
 static binson_parser *P;
-static uint64_t n_accept, n_reject, n_deptherr, hist_counter, n_history;
+static uint64_t n_accept, n_reject, n_deptherr, hist_counter, n_history, n_inplace;
 
 static const int DEPTHS[] = { 1, 2, 3, 10, 255 };
 
@@ -30,9 +30,27 @@ static bool check_one(const uint8_t *doc, size_t n, int root_kind, int max_depth
         if ((hist_counter / 5) % 2) binson_parser_next_ensure(P, (binson_type)77);
         n_history++;
     }
-    bool got = init && binson_parser_verify(P);
+    /* verify is called whatever init answered (an application that forgets to check init must still get 'false');
+     * now and then one byte of the accepted buffer changes in place between init and verify (the next message arrived) */
+    if (init && n >= 2 && (hist_counter % 7) == 3) {
+        size_t at = (hist_counter / 7) % 3 == 0 ? 0 : ((hist_counter / 7) % 3 == 1 ? n - 1 : (size_t)(hist_counter * 2654435761u) % n);
+        exact[at] = (uint8_t)(exact[at] ^ (uint8_t)(1u << (hist_counter % 8)));
+        n_inplace++;
+    }
+    bool ver = binson_parser_verify(P);
+    bool got = init && ver;
+    if (!init && ver) {
+        vbuf d0; memset(&d0, 0, sizeof d0);
+        vb_printf(&d0, "init rejected the buffer but a following verify returned true\n%s-rooted parser, max_depth=%d, %zu bytes (%s): ", vkind_name(root_kind), max_depth, n, origin);
+        vb_hex(&d0, exact, n, 300);
+        vw_violation("c02:verify-true-after-rejected-init", "%s", vb_cstr(&d0)); vb_free(&d0);
+        free(st);
+        return false;
+    }
+    if (init) got = ver;
     binson_err ef = P->error_flags;
-    vrec R = vrecognise(doc, n, root_kind, max_depth);
+    vrec R = vrecognise(exact, n, root_kind, max_depth);     /* the bytes as they were when verify ran */
+    (void)doc;
     bool ok = true;
     char sig[200]; sig[0] = 0;
     char what[400];
@@ -292,7 +310,7 @@ int main(int argc, char **argv)
             enum_case(idx, maxlen);
         }
         vw_count("alphabet_tokens", VA.wid == 0 ? (uint64_t)NT : 0);
-        vw_count("verify_accepted", n_accept); vw_count("verify_rejected", n_reject); vw_count("depth_first_obstacle", n_deptherr); vw_count("verify_after_abandoned_walk_or_error", n_history);
+        vw_count("verify_accepted", n_accept); vw_count("verify_rejected", n_reject); vw_count("depth_first_obstacle", n_deptherr); vw_count("verify_after_abandoned_walk_or_error", n_history); vw_count("verify_after_in_place_change", n_inplace);
         return vw_finish();
     }
     vcorpus_load(VA.repo);
@@ -303,6 +321,6 @@ int main(int argc, char **argv)
         if (k == 0 && VA.wid < 4) { ladder_cases(&r); vw_count("ladder_batches", 1); continue; }
         random_case(&r, k * VA.nworkers + VA.wid);
     }
-    vw_count("verify_accepted", n_accept); vw_count("verify_rejected", n_reject); vw_count("depth_first_obstacle", n_deptherr); vw_count("verify_after_abandoned_walk_or_error", n_history);
+    vw_count("verify_accepted", n_accept); vw_count("verify_rejected", n_reject); vw_count("depth_first_obstacle", n_deptherr); vw_count("verify_after_abandoned_walk_or_error", n_history); vw_count("verify_after_in_place_change", n_inplace);
     return vw_finish();
 }
